@@ -21,8 +21,14 @@ def maxFloat : Int := 1797693134862315708145274237317043567980705675258449965989
 def maxInt64 : Int := 9223372036854775807
 def minInt64 : Int := -9223372036854775808
 
-/-- currentWindow: Go's `%` truncates -/
-def currentWindow (t r : Int) : Int := t - Int.tmod t r + r - 1
+/-- currentWindow as written before the repair (F36): Go's `%` truncates towards zero -/
+def currentWindowTrunc (t r : Int) : Int := t - Int.tmod t r + r - 1
+
+/-- currentWindow: `m := t % r; if m < 0 { m += r }; return t - m + r - 1` (Go's `%` truncates;
+    the shift makes it the floored remainder) -/
+def currentWindow (t r : Int) : Int :=
+  let m := Int.tmod t r
+  t - (if m < 0 then m + r else m) + r - 1
 
 /-! ### floatAggregator -/
 
@@ -56,12 +62,13 @@ def Agg.add (a : Agg) (v : Int) : Agg :=
 /-! ### downsampleBatch -/
 
 /-- the `add(nextT, aggr)` calls of downsampleBatch, in order, as (timestamp, snapshot of the
-    aggregator); `lastT = data[len(data)-1].t` is fixed by the caller -/
+    aggregator); `lastT = data[len(data)-1].t` is fixed by the caller; `nextT` starts at
+    math.MinInt64 = "no window started yet" (since the repair of F36; it was −1) -/
 def batchEmit (r lastT : Int) : List Pt → Int → Agg → List (Int × Agg)
   | [], nextT, a => if a.total > 0 then [(nextT, a)] else []
   | (t, v) :: rest, nextT, a =>
     if t > nextT then
-      (if nextT ≠ -1 then [(nextT, a)] else []) ++
+      (if nextT ≠ minInt64 then [(nextT, a)] else []) ++
         batchEmit r lastT rest (min (currentWindow t r) lastT) (a.reset.add v)
     else batchEmit r lastT rest nextT (a.add v)
 
@@ -77,7 +84,7 @@ def batchNextT (r lastT : Int) : List Pt → Int → Int
 def downsampleBatch (data : List Pt) (r : Int) : Option (List (Int × Agg) × Int) :=
   match data.getLast? with
   | none => none
-  | some l => some (batchEmit r l.1 data (-1) Agg.zero, batchNextT r l.1 data (-1))
+  | some l => some (batchEmit r l.1 data minInt64 Agg.zero, batchNextT r l.1 data minInt64)
 
 /-! ### aggregate chunks -/
 
